@@ -373,6 +373,21 @@ class Core:
             return self.from_term(dt.val(v0.t), v0.sort.args[0], st)
         return v
 
+    def entails(self, st: State, cond) -> bool:
+        """quick solver check that the path condition implies `cond` (only a definite `unsat` of the
+        negation counts)"""
+        sol = z3.Solver()
+        sol.set("timeout", 500)
+        for f in self.global_facts:
+            sol.add(f)
+        for f in st.pc:
+            sol.add(f)
+        sol.add(z3.Not(cond))
+        try:
+            return sol.check() == z3.unsat
+        except z3.Z3Exception:
+            return False
+
     # ------------------------------------------------------------------ obligations
     def oblige(self, st: State, goal, kind: str, text: str, name: Optional[str] = None, expect_sat=False):
         goal = z3.simplify(goal) if not isinstance(goal, bool) else z3.BoolVal(goal)
